@@ -1,6 +1,6 @@
 #!/bin/bash
 # confirm seeds: for each /tmp/mut_<P>/_out/<m>: demo passes clean, fails with patch, lib suite passes with patch
-WT=/tmp/confirm
+WT=${CONFIRM_WT:-/tmp/confirm}
 git -C /repo worktree remove --force $WT 2>/dev/null
 git -C /repo worktree add --detach $WT HEAD >/dev/null 2>&1
 cd $WT
